@@ -34,10 +34,10 @@ fn alphabet(keys: &[u64], vals: &[u64], full: bool) -> Vec<String> {
         v.push(format!("(parget 1 {k})"));
         v.push(format!("(gset {k} {x})"));
         v.push(format!("(gget {k})"));
+        v.push(format!("(has {k})"));
         if full {
             v.push(format!("(take {k})"));
             v.push(format!("(hastop {k})"));
-            v.push(format!("(has {k})"));
             v.push(format!("(findmut {k})"));
             v.push(format!("(get {k})"));
             v.push(format!("(getmut {k} {x})"));
@@ -55,6 +55,8 @@ fn alphabet(keys: &[u64], vals: &[u64], full: bool) -> Vec<String> {
         }
     }
     v.push("(multi (0 1) 1)".into());
+    v.push("(multip (1 0) 1)".into());
+    v.push("(multip (0 0) 1)".into());
     // with_inner_state: small bodies x ok/err, nesting depth <= 2
     for ok in ["ok", "err"] {
         v.push(format!("(inner {ok})"));
@@ -119,7 +121,8 @@ impl Gen {
             82..=87 => "(pop)".into(),
             88..=90 => format!("(parget {} {k})", self.rng.below(4)),
             91..=92 => format!("(parins {} {k} {v})", self.rng.below(3)),
-            93..=96 => format!("(multi {} {})", self.tuple(), self.rng.range(1, 3)),
+            93..=95 => format!("(multi {} {})", self.tuple(), self.rng.range(1, 3)),
+            96 => format!("(multip {} {})", self.tuple(), self.rng.range(1, 3)),
             97 => format!("(req {k})"),
             98 => if self.rng.chance(1, 2) { format!("(gset {k} {v})") } else { format!("(gget {k})") },
             _ => "(dump)".into(),
@@ -186,7 +189,7 @@ fn main() {
         vec![],
         vec!["(ins 0 1)", "(push)"],
         vec!["(ins 0 1)", "(ins 1 1)", "(push)", "(ins 0 2)"],
-        vec!["(ins 0 1)", "(push)", "(ins 1 1)", "(push)", "(ins 0 2)"],
+        vec!["(ins 0 1)", "(ins 1 1)", "(push)", "(push)", "(ins 0 2)"],
     ];
     let keys = [0u64, 1];
     let vals = [1u64, 2];
